@@ -126,6 +126,10 @@ Check ==
          \* C17/C02: recovery of the crash image of the quiescent database must succeed and read like the reference map
          IF ~Ev.ok THEN "recovery-failed-on-crash-image"
          ELSE IF \E i \in 1..Len(Ev.m) : Ev.m[i] # model[i - 1] THEN "crash-recovery-differs" ELSE "ok"
+    [] Ev.t = "blocked" ->
+         \* disabledness test: a step SimpleDB.tla does not enable (Handoff while fpc # idle, CompactReflect / GetStart while the lock is
+         \* held) was attempted on the real code and must not have completed before its enabler was released
+         IF Ev.still THEN "ok" ELSE "disabled-step-completed"
     [] Ev.t = "bgfail" -> "background-failure"
     [] Ev.t \in {"rotwal", "note"} -> "ok"
     [] OTHER -> "unknown-event"
